@@ -436,3 +436,11 @@ B('C14.optional-asn1-field-native', ['C14'], [(P + 'common/x509.py', _SCT_LOOP,
 N('benign.optional-asn1-field-tested', [(P + 'common/x509.py', _SCT_LOOP,
   "        extensions = self._certificate['tbs_certificate']['extensions']\n        if extensions.native is None:\n            return SignedCertificateTimestampList([])\n"
   "        for extension in extensions:\n            if extension['extn_id'].dotted == '1.3.6.1.4.1.11129.2.4.2':\n")])
+# a factory that overrides the generic decoder: evaluated with the real enumeration and the integers the class mentions
+_NC_FACTORY = "class TlsNamedCurveFactory(TwoByteEnumParsable):\n    @classmethod\n    def get_enum_class(cls):\n        return TlsNamedCurve\n"
+B('C10.factory-override-aliases-codes', ['C10', 'C15'], [(P + 'tls/algorithm.py', _NC_FACTORY, _NC_FACTORY +
+  "\n    @classmethod\n    def _parse(cls, parsable):\n        if bytes(parsable[:2]) == b'\\x00\\x1f':\n            return TlsNamedCurve.BRAINPOOLP256R1, 2\n"
+  "        return super(TlsNamedCurveFactory, cls)._parse(parsable)\n")], mention=['override', '0x1f'])
+N('benign.factory-override-delegates', [(P + 'tls/algorithm.py', _NC_FACTORY, _NC_FACTORY +
+  "\n    @classmethod\n    def _parse(cls, parsable):\n        named_curve, parsed_length = super(TlsNamedCurveFactory, cls)._parse(parsable)\n"
+  "        return named_curve, parsed_length\n")])
